@@ -720,6 +720,17 @@ def suite_real_lifecycle(report, tier, seed, prop="C12"):
                ("drv.run kind=tokio v=5 fplan=w answer=0 ctimeout=200 backoff=50 | start;sleep:700;stop;sleep:400;mark:settled;sleep:150", "tokio", "flush-stall"),
                ("drv.run kind=tokio v=5 shutdown=stall answer=0 ctimeout=200 backoff=50 | start;sleep:700;stop;sleep:400;mark:settled;sleep:150", "tokio", "shutdown-stall"),
                ("drv.run kind=threaded v=5 fplan=w answer=0 ctimeout=200 backoff=50 | start;sleep:700;stop;sleep:400;mark:settled;sleep:150", "threaded", "flush-stall")]
+    # transport faults and the other ways a connection ends (each of these paths of the two driver loops was dark in a source
+    # coverage measurement of the quick tier): the establishment timeout itself, garbage from the server, a failing read, a
+    # failing write before the CONNACK, a failing flush - and a stop that sends a DISCONNECT first
+    for kind in ("threaded", "tokio"):
+        corpus += [(f"drv.run kind={kind} v=5 cdelay=400 ctimeout=100 backoff=50 | start;sleep:700;stop;sleep:500;mark:settled;sleep:150", kind, "connect-timeout"),
+                   (f"drv.run kind={kind} v=5 backoff=50 ctimeout=300 | start;waitwire:1;sleep:50;inject:xffff00;sleep:250;stop;sleep:400;mark:settled;sleep:150", kind, "server-garbage"),
+                   (f"drv.run kind={kind} v=5 backoff=50 ctimeout=300 rplan=f1,e | start;sleep:350;stop;sleep:400;mark:settled;sleep:150", kind, "read-error"),
+                   (f"drv.run kind={kind} v=5 backoff=50 ctimeout=300 wplan=e | start;sleep:350;stop;sleep:400;mark:settled;sleep:150", kind, "write-error"),
+                   (f"drv.run kind={kind} v=5 backoff=50 ctimeout=300 fplan=e | start;sleep:350;stop;sleep:400;mark:settled;sleep:150", kind, "flush-error"),
+                   (f"drv.run kind={kind} v=5 backoff=50 ctimeout=300 | start;waitwire:1;sleep:80;stopd;sleep:500;mark:settled;sleep:150", kind, "stop-disconnect"),
+                   (f"drv.run kind={kind} v=311 backoff=50 ctimeout=300 | start;waitwire:1;sleep:80;pub:1;sleep:50;stopd;sleep:500;mark:settled;sleep:150", kind, "stop-disconnect")]
     # configuration values the builders accept: an endpoint string that is no URI authority (a bare IPv6 literal - fine for
     # the direct transport -, a space, nothing at all) given to a websocket client.  Nothing listens on port 1: every attempt
     # can only fail, and must do so as a reported failure, with the loop alive and a stop still stopping.
@@ -752,6 +763,16 @@ def suite_real_lifecycle(report, tier, seed, prop="C12"):
             after = [e for e in events[events.index("|close|") + 1:] if e in ("Attempt", "Success")]
             if after:
                 verdict = ("attempt-after-close", f"close() was requested while the loop slept; afterwards the client still emitted {after}")
+        if not verdict and transport == "stop-disconnect":
+            # the stop asked for a DISCONNECT: it is the last packet the (last) connection carries, sent once, and the client stops
+            from walk import split_packets
+            wires = [unhex(w) for w in fa.get("wires", "").split(",") if w]
+            pkts = split_packets(wires[-1])[0] if wires else []
+            kinds = [first >> 4 for first, _ in pkts]
+            if "Stopped" not in events:
+                verdict = ("stop-never-stops", "a stop with a DISCONNECT did not end in a Stopped event")
+            elif kinds.count(14) != 1 or kinds[-1] != 14:
+                verdict = ("disconnect-not-last", f"a stop with a DISCONNECT: the connection carried packet types {kinds} (expected exactly one DISCONNECT, last)")
         if verdict:
             mon_ok = False
             report.add_finding(Finding(prop, "mon:real-lifecycle", {"clause": verdict[0], "kind": kind}, f"{kind} client: {verdict[1]}", [req, "# impl: events=" + fa.get("events", "")]))
